@@ -195,6 +195,12 @@ class RepeatedNodeWrapper(MutableSequence[_M]):
             return
         assert isinstance(value, Iterable)
         values = list(value)
+        for v in values:
+            # Refuse before anything is deleted: detach() would only fail halfway through.
+            if v.token_store and (
+                    v.first_token is not v.token_store.get_first() or
+                    v.last_token is not v.token_store.get_last()):
+                raise ValueError('Cannot reuse node. Consider making a copy.')
         r = indexes.range_from_index(index, len(self._repeated.items))
         separators_before_last = (
             self._repeated.token_store.get_prev(self._repeated.items[0].first_token)
